@@ -1,11 +1,14 @@
 (* C08 — Downtime accounting: sliding window is exact. Statements only.
    Proved: the required-signed threshold is the half-even rounding of fraction * window (incl. 0.5 * odd).
-   The ring-buffer = sliding-window refinement and the exact jailing block are checked on the
-   implementation for every vote of every history by the oracle c08 (which recomputes the window
-   from the vote stream) and by correspondence with handle_signature; Coq proof: partial. *)
+   Proved: the ring buffer update rule of handleValidatorSignature (flip the bit at offset mod W, move the
+   counter only when the bit changes) IS a sliding window, for every window size and every vote sequence
+   (App/RingProofs.v): the counter equals the misses among the most recent min(n, W) votes and the array holds
+   exactly those votes. That handle_signature applies this rule to the stored bits, and the exact jailing
+   block, are tied to the code by the oracle c08 (recomputes the window from the vote stream for every vote of
+   every history) and by correspondence of counter / bit array / offset; that composition is not a Coq theorem. *)
 From Coq Require Import List ZArith NArith Bool.
 From PM Require Import Base.Bytes Store.KV Store.MergeProofs Num.IntModel Num.DecModel Num.DecProofs
-  App.Model App.BankProofs App.TxProofs App.KeyProofs App.PosProofs App.Examples.
+  App.Model App.BankProofs App.TxProofs App.KeyProofs App.PosProofs App.RingProofs App.Examples.
 Import ListNotations.
 Local Open Scope Z_scope.
 
@@ -13,6 +16,15 @@ Theorem C08_threshold_partial p : min_signed_per_window p = round_half_even (p_m
 Proof. exact (min_signed_is_half_even p). Qed.
 Theorem C08_signature_handling_conserves s a p sg s' : bank_ok s -> handle_signature s a p sg = Some s' -> bank_ok s'.
 Proof. exact (handle_signature_pres s a p sg s'). Qed.
+(* the ring buffer is a sliding window: for all W >= 1 and all vote sequences (true = missed) *)
+Theorem C08_ring_buffer_is_sliding_window W votes : (0 < W)%nat ->
+  ring_inv W (fold_left (ring_step W) votes ring0) (rev votes).
+Proof. exact (ring_is_sliding_window W votes). Qed.
+Theorem C08_counter_is_misses_in_window W votes : (0 < W)%nat ->
+  snd (fst (fold_left (ring_step W) votes ring0)) = cnt (firstn W (rev votes)).
+Proof. exact (ring_counter_is_window_misses W votes). Qed.
+Example C08_ex_ring : snd (fst (fold_left (ring_step 3) [true; true; false; true; false; false] ring0)) = 1.
+Proof. vm_compute. reflexivity. Qed.
 Example C08_ex_half_of_odd_window :
   min_signed_per_window {| p_unstaking_time := 0; p_max_validators := 1; p_min_stake := 0; p_max_evidence_age := 0;
      p_window := 5; p_min_signed := 500000000000000000; p_downtime_jail := 0; p_slash_ds := 0; p_slash_dt := 0 |} = 2 /\
@@ -20,3 +32,4 @@ Example C08_ex_half_of_odd_window :
      p_window := 7; p_min_signed := 500000000000000000; p_downtime_jail := 0; p_slash_ds := 0; p_slash_dt := 0 |} = 4.
 Proof. split; vm_compute; reflexivity. Qed.
 Print Assumptions C08_threshold_partial.
+Print Assumptions C08_ring_buffer_is_sliding_window.
